@@ -41,6 +41,28 @@ DSL_CHAINS = [
 ]
 
 
+# chains of restructuring verbs (B3): on records of a dozen fields or more a record carries a key index, which every verb
+# of a then-chain shares and a pipe rebuilds
+RESTRUCT_CHAINS = [
+    [["rename", "a,z"], ["rename", "b,a"]], [["rename", "a,z"], ["cut", "-x", "-f", "a"]], [["rename", "a,z"], ["reorder", "-e", "-f", "a"]],
+    [["rename", "-r", "^a$,z"], ["rename", "b,a"]], [["reorder", "-f", "b"], ["rename", "b,q"], ["cut", "-o", "-f", "q,a"]],
+    [["cut", "-x", "-f", "p3"], ["rename", "a,p3"]], [["rename", "a,z"], ["sort-within-records"]], [["rename", "a,z"], ["put", "$a = 1"]],
+    [["label", "x,y"], ["rename", "x,a"], ["cut", "-x", "-f", "y"]], [["reorder", "-e", "-f", "a"], ["put", "$n = 9"], ["cut", "-x", "-f", "b"]],
+    [["rename", "a,z,b,a"], ["rename", "z,b"]], [["template", "-f", "b,a,zz"], ["rename", "zz,a2"], ["unsparsify"]],
+    [["nest", "--ivar", ";", "-f", "a"], ["rename", "a,k"]], [["sec2gmt", "a"], ["rename", "a,t"], ["cut", "-f", "t,b"]],
+    [["fill-empty"], ["rename", "b,e"], ["reorder", "-f", "e"]], [["rename", "p10,a10"], ["cut", "-r", "-f", "^a"]],
+]
+
+
+def wide_streams():
+    """three records each, of 11, 12, 13 and 14 fields (a, b and padding p1..pn)"""
+    out = []
+    for npad in (9, 10, 11, 12):
+        out.append([[["a", str(10 * i + 1)], ["b", "x%d" % i]] + [["p%d" % j, str(j)] for j in range(1, npad + 1)] for i in range(1, 4)])
+    out.append(out[1][:1] + [[["b", "only"]]] + out[2][1:])       # mixed widths in one stream
+    return out
+
+
 def render_file(f, fmt):
     h, rows = f["header"], f["rows"]
     if fmt == "dkvp":
@@ -313,6 +335,20 @@ def run(tier, seed):
                 " ".join(shlex.quote(a) for a in then_argv), " | ".join(stages))
             cases.append({"shell": shell, "files": {"in.dkvp": b3.dkvp(s)}, "collect": True, "timeout_ms": 15000})
             meta.append({"t": "dslchain", "cs": [], "s": s, "inter": "dkvp", "stages": stages_argv})
+
+    # ---- B3. chains of restructuring verbs on wide records, with --hash-records, --no-hash-records and neither ------
+    for k, stages_argv in enumerate(RESTRUCT_CHAINS):
+        for s in wide_streams():
+            for main in ([], ["--hash-records"], ["--no-hash-records"]):
+                then_argv = [mlr] + main
+                for j, st in enumerate(stages_argv):
+                    then_argv += (["then"] if j else []) + st
+                stages = [" ".join(shlex.quote(a) for a in [mlr] + main + st) for st in stages_argv]
+                stages[0] += " < in.dkvp"
+                shell = "%s < in.dkvp > then.out; %s > piped.out; echo done" % (
+                    " ".join(shlex.quote(a) for a in then_argv), " | ".join(stages))
+                cases.append({"shell": shell, "files": {"in.dkvp": b3.dkvp(s)}, "collect": True, "timeout_ms": 15000})
+                meta.append({"t": "dslchain", "cs": [], "s": s, "inter": "dkvp", "stages": stages_argv})
 
     res = vlib.run_cases(cases)
     vlib.confirm_timeouts(cases, res)
